@@ -175,6 +175,9 @@ func prepareScripts(obls []*Obligation) {
 }
 
 func prepareOne(o *Obligation) {
+	if o.done && o.bank == nil {
+		return
+	}
 	if st, ok := o.trivial(); ok {
 		o.Status = st
 		o.Solver = "simplifier"
